@@ -49,6 +49,32 @@ def api_probes(ctx):
         if stored["E"].value == 1.0:
             ctx.violation("stored-aliases-argument", "fit_properties['params_initial'] aliases the caller's object",
                           {"input": {"curve": cid}})
+        # nested containers inside an argument are taken by value too: minimiser keywords with an inner dict
+        with warnings.catch_warnings():
+            warnings.simplefilter("ignore")
+            P0 = ["compute_tip_position", "correct_tip_offset"]
+            nest = {"options": {"maxiter": 4}}
+            nidn = histlib.fresh(cid)
+            nidn.fit_model(preprocessing=list(P0), method="nelder", method_kws=nest)
+            n1 = nidn.fit_properties["params_fitted"]["E"].value
+            nest["options"]["maxiter"] = 400
+            stored_inner = copy.deepcopy(nidn.fit_properties["method_kws"]).get("options", {}).get("maxiter")
+            nidn.fit_model(preprocessing=list(P0), method="nelder", method_kws=nest)
+            n2 = nidn.fit_properties["params_fitted"]["E"].value
+            nref = histlib.fresh(cid)
+            nref.fit_model(preprocessing=list(P0), method="nelder", method_kws={"options": {"maxiter": 400}})
+            n3 = nref.fit_properties["params_fitted"]["E"].value
+        ctx.case({"probe": "nested-argument-edited", "curve": cid}, nontrivial=f"probe:nested:{cid}",
+                 bucket="stream=api-probes")
+        if stored_inner != 4 or n2 != n3:
+            ctx.violation("stored-aliases-nested-argument", "the inner dict of method_kws stays shared with the caller: "
+                          f"after the caller set options['maxiter'] = 400 the stored setting reads {stored_inner!r} "
+                          f"(expected 4) and passing the edited object again gives E={n2!r} (first fit {n1!r}, fresh "
+                          f"object with maxiter=400: {n3!r})",
+                          {"input": {"curve": cid},
+                           "history": ["a.fit_model(method='nelder', method_kws=kws)  # kws={'options':{'maxiter':4}}",
+                                       "kws['options']['maxiter'] = 400", "a.fit_model(method='nelder', method_kws=kws)"],
+                           "observed": [repr(stored_inner), repr(n2)], "expected": ["4", repr(n3)]})
         # every mutable object the library hands back in fit_properties is edited in place: neither the
         # module-level defaults nor another curve may notice
         import nanite.fit as nfit
